@@ -1,7 +1,7 @@
 '''C16: the compliance gate accepts exactly the engines that follow the architecture
 (spec/Gate.tla, tools/compliant.py).
 
- 1. MC      (quick: folded into the GEN run; thorough: own runs) TLC enumerates the descriptor space [kinds, shape, vals, viol, pos] and checks
+ 1. MC      (quick: folded into the GEN run; thorough: own runs) TLC enumerates the descriptor space [kinds, shape, vals, evs, viol, pos] and checks
             that the transcription of _walk/_verify (repaired form) decides exactly
             Accept(d) = (d.viol = "none"); a second run with the traversal of the
             pinned tree lists the descriptors on which that traversal disagrees
@@ -18,7 +18,7 @@
 
 thorough runs the whole space through the in-process gate and 640 packages through
 the command; quick runs every conforming descriptor and 8 seeded members (kind subset
-x shape) of every stratum (violated clause, factory kind, element, value layout), 32
+x shape) of every stratum (violated clause, factory kind, element, value layout, event layout), 32
 through the command.
 
 Interpretation choices
@@ -93,26 +93,27 @@ def model_runs(chk, thorough):
 
 
 def dkey(d):
-    return json.dumps([sorted(d['kinds']), d['shape'], d.get('vals', 'own'), d['viol'], d['pos']['k'], d['pos']['e']])
+    return json.dumps([sorted(d['kinds']), d['shape'], d.get('vals', 'own'), d.get('evs', 'boot_dow'), d['viol'], d['pos']['k'], d['pos']['e']])
 
 
 def signature(d, ev):
-    return f'viol={d["viol"]}@{d["pos"]["k"]}/{d["pos"]["e"]}:kinds={"+".join(sorted(d["kinds"])) or "-"}:shape={d["shape"]}:vals={d.get("vals", "own")}:{ev}'
+    return f'viol={d["viol"]}@{d["pos"]["k"]}/{d["pos"]["e"]}:kinds={"+".join(sorted(d["kinds"])) or "-"}:shape={d["shape"]}:vals={d.get("vals", "own")}:evs={d.get("evs", "boot_dow")}:{ev}'
 
 
 def stratified(cases, per, rnd):
     '''quick tier: every conforming descriptor, the factory-less one, and `per` seeded members
-    (kind subset x shape) of every stratum (violated clause, factory kind, element, value layout)'''
+    (kind subset x shape) of every stratum (violated clause, factory kind, element, value layout, event layout)'''
     strata = {}
     for d in cases:
-        strata.setdefault((d['viol'], d['pos']['k'], d['pos']['e'], d['vals']), []).append(d)
+        strata.setdefault((d['viol'], d['pos']['k'], d['pos']['e'], d['vals'], d['evs']), []).append(d)
     out = []
     for key in sorted(strata):
         members = strata[key]
-        if key[0] in ('none', 'no_factory') or len(members) <= per:
+        n = per if key[4] == 'boot_dow' else max(1, per // 2)
+        if key[0] in ('none', 'no_factory') or len(members) <= n:
             out += members
         else:
-            out += rnd.sample(members, per)
+            out += rnd.sample(members, n)
     return out
 
 
@@ -217,6 +218,7 @@ def run(pid, tier, seed, replay=None):
         conforming=n['conforming'],
         violating=n['violating'],
         shared_value_class=sum(1 for t in recs.values() if t['d']['vals'] == 'shared'),
+        falsy_moment_layouts=sum(1 for t in recs.values() if t['d']['evs'] != 'boot_dow'),
         violation_clauses=len(names),
         violation_clause_x_kind=len(claimed_viol),
         accepted_by_gate=n['accepted'],
